@@ -20,6 +20,30 @@ def load_index():
         return json.load(f)
 
 
+import threading
+_tls = threading.local()
+_wlock = threading.Lock()
+_wcount = [0]
+
+
+def _worker_target():
+    """Each worker thread extracts into its own cargo target directory (a copy of the warmed one), so mutants run in parallel."""
+    if getattr(_tls, 'tdir', None) is None:
+        with _wlock:
+            i = _wcount[0]
+            _wcount[0] += 1
+        base = os.path.join(extract.CACHE, 'target')
+        tdir = os.path.join(extract.CACHE, 'target-w%d' % i)
+        if not os.path.exists(tdir) and os.path.exists(os.path.join(base, 'debug')):
+            import shutil
+            os.makedirs(tdir, exist_ok=True)
+            # only the dev profile's dependency artefacts are needed (check metadata, no codegen): a few MB
+            shutil.copytree(os.path.join(base, 'debug'), os.path.join(tdir, 'debug'), symlinks=True,
+                            ignore=shutil.ignore_patterns('incremental', 'examples', '*.d'))
+        _tls.tdir = tdir
+    return _tls.tdir
+
+
 def run_mutant(m, repo, pids, want=('violation',)):
     """-> {'status': 'fired'|'missed'|'skipped'|'build-failed', per property results}"""
     d, tree = scratch.make_copy(repo)
@@ -28,7 +52,7 @@ def run_mutant(m, repo, pids, want=('violation',)):
         if not okp:
             return {'status': 'skipped', 'why': 'patch does not apply to this tree'}
         try:
-            facts, info = extract.extract(tree, 'dev')
+            facts, info = extract.extract(tree, 'dev', target_dir=_worker_target() if getattr(_tls, 'parallel', False) else None)
         except extract.ExtractError as e:
             return {'status': 'build-failed', 'why': str(e)[:300]}
         ctx = Ctx(facts, info)
@@ -42,16 +66,27 @@ def run_mutant(m, repo, pids, want=('violation',)):
         scratch.remove(d)
 
 
+def _pmap(fn, items, workers=4):
+    from concurrent.futures import ThreadPoolExecutor
+
+    def wrapped(x):
+        _tls.parallel = True
+        return fn(x)
+    if len(items) <= 1:
+        return [fn(x) for x in items]
+    with ThreadPoolExecutor(max_workers=min(workers, len(items))) as ex:
+        return list(ex.map(wrapped, items))
+
+
 def run(pid, repo, seed):
     idx = load_index()
     lines = []
     code = 0
     fired, skipped, missed = [], [], []
-    for m in idx['mutants']:
+    todo = [m for m in idx['mutants'] if m['expect'].get(pid)]
+    results = _pmap(lambda m: run_mutant(m, repo, [pid]), todo)
+    for m, r in zip(todo, results):
         exp = m['expect'].get(pid)
-        if not exp:
-            continue
-        r = run_mutant(m, repo, [pid])
         if r['status'] in ('skipped', 'build-failed'):
             skipped.append({'mutant': m['name'], 'why': r['why']})
             continue
@@ -63,7 +98,25 @@ def run(pid, repo, seed):
             missed.append({'mutant': m['name'], 'expected': exp, 'got': got[:5]})
             lines.append('CHECKER-BROKEN property=%s mutant=%s expected one of %s, got %s' % (pid, m['name'], exp['rules'], got[:3]))
             code = 2
-    extra = {'mutants': {'fired': fired, 'skipped': skipped, 'missed': missed, 'total_for_property': len(fired) + len(skipped) + len(missed)}}
+    # behaviour-preserving variants: the property's check must stay silent (no violation, no UNDECIDED) on every one of them
+    known = json.load(open(os.path.join(VERIF, 'known_findings.json')))
+    kset = set((k['property'], k['rule'], k['key']) for k in known['findings'])
+    silent, noisy = [], []
+    benign = idx.get('benign', [])
+    bres = _pmap(lambda b: run_mutant(b, repo, [pid], want=('violation', 'undecided')), benign)
+    for b, r in zip(benign, bres):
+        if r['status'] in ('skipped', 'build-failed'):
+            skipped.append({'mutant': b['name'], 'why': r['why']})
+            continue
+        got = [g for g in r['violations'][pid] if (pid, g['rule'], g['key']) not in kset]
+        if got:
+            noisy.append({'variant': b['name'], 'reported': got[:3]})
+            lines.append('CHECKER-BROKEN property=%s benign variant %s raises %s' % (pid, b['name'], got[:3]))
+            code = 2
+        else:
+            silent.append(b['name'])
+    extra = {'mutants': {'fired': fired, 'skipped': skipped, 'missed': missed, 'total_for_property': len(fired) + len(skipped) + len(missed)},
+             'benign_variants': {'silent': silent, 'false_alarms': noisy}}
     # witnesses
     from . import witness
     w = witness.run(pid, repo)
